@@ -5,7 +5,8 @@ class uses a recording `HTTPSConnection` subclass (`ConnectionCls` / `pool_class
 documented extension points).  The connection's constructor arguments, `set_tunnel` arguments and
 the state of the caller's `SSLContext` *before* `connect()` are the model's input; the TLS-layer
 calls (`urllib3.connection.ssl_wrap_socket`: server_hostname, the context's verify_mode and
-check_hostname at that moment, CA material, tls_in_tls), the exception class, `is_verified`,
+check_hostname at that moment, CA material, tls_in_tls, whether `load_default_certs()` had been called
+on that context), the exception class, `is_verified`,
 `proxy_is_verified` right after `connect()`, the InsecureRequestWarning, "request bytes arrived at the
 server" and "socket closed" are compared with `U3.Tls.urlopenOnce` (driver `tls`).
 
@@ -173,7 +174,8 @@ class Rec:
 
 _REC = None
 _CTX_CA = {}                    # id(context) -> "the caller loaded CA A into it" (fake tier)
-_CTX_SYS = set()                # id(context) of contexts on which load_default_certs() was called (fake tier)
+_CTX_SYS = set()                # id(context) of contexts on which load_default_certs() was called
+_CTX_KEEP = []                  # … kept alive for the duration of the case, so that an id is never reused
 
 
 def describe_ctx(ctx):
@@ -616,6 +618,7 @@ class C07(Prop):
         rec = _REC = Rec()
         _CTX_CA.clear()
         _CTX_SYS.clear()
+        _CTX_KEEP.clear()
         saved_ncn = ussl.HAS_NEVER_CHECK_COMMON_NAME
         injected = False
         cur = {}
@@ -689,7 +692,8 @@ class C07(Prop):
                               ca_cert_data=None, tls_in_tls=False):
                 rec.wraps.append((server_hostname, VM.get(getattr(ssl_context, "verify_mode", None), "?"),
                                   int(bool(getattr(ssl_context, "check_hostname", False))),
-                                  int(bool(ca_certs or ca_cert_dir or ca_cert_data)), int(bool(tls_in_tls))))
+                                  int(bool(ca_certs or ca_cert_dir or ca_cert_data)), int(bool(tls_in_tls)),
+                                  int(id(ssl_context) in _CTX_SYS)))
                 given = ca_certs or ca_cert_data
                 cur["ca"] = None if not given else ("A" if given in ("/ca/A.pem", "PEM-A") or (real and given in (lb.ca_file["A"], lb.ca_pem["A"])) else "B")
                 return inner["f"](sock, keyfile=keyfile, certfile=certfile, cert_reqs=cert_reqs, ca_certs=ca_certs,
@@ -761,7 +765,7 @@ class C07(Prop):
         snap = conn._c07
         line = self.model_line(case, snap, ident_o, ident_p, der_o, der_p, ca_name, real)
         # ---- canonical observation
-        wraps = ";".join(f"{enc(sh) if sh else '-'}/{vm}/{ch}/{cag}/{tit}" for sh, vm, ch, cag, tit in rec.wraps) or "-"
+        wraps = ";".join(f"{enc(sh) if sh else '-'}/{vm}/{ch}/{cag}/{tit}/{ld}" for sh, vm, ch, cag, tit, ld in rec.wraps) or "-"
         tail = f"wraps={wraps} warn={int(warned)} req={int(origin_bytes)} closed={int(exc is not None and sockets_open == 0)}"
         if exc is None:
             iv, piv = rec.after[-1] if rec.after else (None, None)
@@ -812,6 +816,7 @@ class C07(Prop):
             def load_default_certs(self, *a, **kw):
                 # the scripted OS trust store: it contains CA "S" only (nothing is read from the machine)
                 _CTX_SYS.add(id(self))
+                _CTX_KEEP.append(self)
 
             with net.installed(fake_tls=True):
                 inner["f"] = ucn.ssl_wrap_socket
@@ -849,12 +854,22 @@ class C07(Prop):
                 return real_socket.getaddrinfo(host, port, family, type, proto, flags)
 
             shim.getaddrinfo = getaddrinfo
+            saved_ldc = ssl.SSLContext.load_default_certs
+
+            def load_default_certs(self, *a, **kw):
+                # recorded, and performed: the real tier handshakes against the machine's own store
+                _CTX_SYS.add(id(self))
+                _CTX_KEEP.append(self)
+                return saved_ldc(self, *a, **kw)
+
             inner["f"] = ucn.ssl_wrap_socket
             ucn.ssl_wrap_socket = wrap_recorder
             uconn.socket = shim
+            ssl.SSLContext.load_default_certs = load_default_certs
             try:
                 yield None
             finally:
+                ssl.SSLContext.load_default_certs = saved_ldc
                 uconn.socket = real_socket
                 ucn.ssl_wrap_socket = inner["f"]
         return cm()
